@@ -33,7 +33,7 @@ extern size_t g2_ob, g2_oi;              /* observed call number, observed byte 
 #define VC_B2_MININ 0
 #endif
 #ifndef VC_B2_MAXOUT
-#define VC_B2_MAXOUT 32
+#define VC_B2_MAXOUT 80
 #endif
 /* RFC 7693 2.6 */
 #define VC2_IV(i) ((uint32_t)((i) == 0 ? 0x6A09E667u : (i) == 1 ? 0xBB67AE85u : (i) == 2 ? 0x3C6EF372u : (i) == 3 ? 0xA54FF53Au : \
@@ -84,7 +84,7 @@ __CPROVER_ensures(VC2_GJ < VC2_TOTAL ==> (g2_ob < VC2_NB ?
 #define VC2_HBYTE(S, j) ((uint8_t)((S)->h[((j) % 32) >> 2] >> (8 * ((j) & 3))))
 int blake2s_final(blake2s_state *S, void *out, size_t outlen)
 /* (outlen > 32 is outside this contract: the code copies outlen bytes out of its 32-byte temporary - reported as a finding) */
-__CPROVER_requires(outlen <= VC_B2_MAXOUT && __CPROVER_is_fresh(S, sizeof(blake2s_state)) && S->buflen <= 64 && (out == NULL || __CPROVER_is_fresh(out, outlen)))
+__CPROVER_requires(outlen <= VC_B2_MAXOUT && __CPROVER_is_fresh(S, sizeof(blake2s_state)) && S->buflen <= 64 && S->outlen <= 32 && (out == NULL || __CPROVER_is_fresh(out, outlen)))
 __CPROVER_requires(g2_n == 0 && g2_set == 0 && g2_oi < 64 && g2_ob == 0)
 __CPROVER_assigns(!VC2_REJ: __CPROVER_object_whole(S))
 __CPROVER_assigns(!VC2_REJ: __CPROVER_object_upto((uint8_t *)out, outlen))
